@@ -110,7 +110,7 @@ func TestCheck(t *testing.T) {
 				continue
 			}
 			r := sys.BFS(ss.BFSOptions{Workers: env.Workers, Deadline: time.Now().Add(map[bool]time.Duration{true: share / 2, false: share}[cfg.Delays > 0]), Constraint: cfg.Constraint, MaxDev: cfg.MaxDev, Invariants: cfg.Invariants(),
-				EdgeInvs: []func(*ss.State, int, *ss.Attempt) (string, string){cfg.LeaderAppendOnly}, FailedIsViolation: true})
+				EdgeInvs: []func(*ss.State, int, *ss.Attempt) (string, string){cfg.LeaderAppendOnly}, FailedIsViolation: false /* assertion failures are outside this property's statement: counted in the evidence (error_edges), not judged */})
 			if r.MemoMismatch > 0 {
 				t.Fatalf("transition memo disagrees with the real code (harness bug or nondeterministic step): %s", r.MemoFirstMismatch)
 			}
@@ -123,7 +123,7 @@ func TestCheck(t *testing.T) {
 				for oi, ord := range orders {
 					d := sys.DelayBounded(ss.DelayOptions{MaxDelays: cfg.Delays, MaxDev: cfg.MaxDev, MaxDepth: 400, Order: ord, Workers: env.Workers,
 						Deadline: time.Now().Add(share / 2 / time.Duration(len(orders)-oi)), Constraint: cfg.Constraint, Invariants: cfg.Invariants(),
-						EdgeInvs: []func(*ss.State, int, *ss.Attempt) (string, string){cfg.LeaderAppendOnly}, FailedIsViolation: true})
+						EdgeInvs: []func(*ss.State, int, *ss.Attempt) (string, string){cfg.LeaderAppendOnly}, FailedIsViolation: false /* assertion failures are outside this property's statement: counted in the evidence (error_edges), not judged */})
 					if d.MemoMismatch > 0 {
 						t.Fatalf("transition memo disagrees with the real code: %s", d.MemoFirstMismatch)
 					}
